@@ -369,7 +369,7 @@ def gen_cases(op, rng, tier):
 # ------------------------------------------------------------------ shared evidence helpers
 RULE = ('cases = (extension mask, message bytes, HELO name) for the sequence need_recode(); send_data() of qremote.c; messages from nine '
         'streams: tiny words over {CR, LF, ".", blank, tab, "=", "a", 0x80}; 7-bit text with mixed CR/LF/CRLF ends and sizes around the '
-        '1200/1205/1269/1280-octet staging buffers; single lines of 996..1002 octets with/without dot and line end; header+body that needs '
+        '1200/1205/1269/1280-octet staging buffers; single lines of 996..1002 octets with/without dot and line end, also behind a line with an 8-bit octet; header+body that needs '
         'quoted-printable with lines around the 72..76 soft-break columns and every last byte in {blank, tab, CR, LF, ".", "=", 0x80, NUL}; '
         'long header lines (fold points 50/800/970, with and without blanks); multipart with present / missing / duplicated / terminal '
         'boundaries and nested parts; well-formed multipart with exactly one defective part (over-long line in its own header / in its body, '
